@@ -195,7 +195,12 @@ func runC12(c *Ctx) {
 			}
 		}
 		gff := p.Facts(gt)
-		if len(lists) != 2 || len(pub) != 1 {
+		if len(lists) == 0 && len(pub) == 1 {
+			// another representation of the worklists (slices, a single pass): this rule is specific to
+			// container/list queues drained by Len() > 0 loops and decides nothing here
+			ob.HoldNT("no container/list worklists in this tree: the draining rule does not apply (Sample's shape and the table sizes are still decided)")
+			bad = "-"
+		} else if len(lists) != 2 || len(pub) != 1 {
 			bad = fmt.Sprintf("%d worklists and %d publication sites of the Prob table in genTables (expected 2 and 1)", len(lists), len(pub))
 		} else {
 			for _, l := range lists {
@@ -285,7 +290,9 @@ func runC12(c *Ctx) {
 				bad = fmt.Sprintf("only %d removals from the worklists", nRem)
 			}
 		}
-		if bad != "" {
+		if bad == "-" {
+			// decided above
+		} else if bad != "" {
 			ob.Violate("%s", bad)
 		} else {
 			ob.HoldNT("2 worklists, both provably empty at the publication of prob/alias; every removed index is settled")
